@@ -1,5 +1,6 @@
 import Dnp3.Model.MasterSession
 import Dnp3.Proofs.Master
+import Dnp3.Proofs.MasterC17Trace
 /-!
 # C17 — Master start-up and restart handling runs in order and gates unsolicited data
 
@@ -8,7 +9,7 @@ import Dnp3.Proofs.Master
 `process_iin`, and the unsolicited gate of `handle_unsolicited_response`.
 -/
 namespace Dnp3.Props.C17
-open Dnp3 Dnp3.Master
+open Dnp3 Dnp3.Master Dnp3.Proofs.MasterC17Trace Dnp3.Proofs.MasterC17Trace.Ord
 
 /-- the automatic tasks in their fixed order, with "is configured" and the choice they produce -/
 def slots (t : TaskStates) (cfg : ACfg) (_evAvail : Nat) : List (Bool × AutoState × AutoChoice) :=
@@ -213,5 +214,138 @@ example : nthDelay 1000 10000 0 = 1000 ∧ nthDelay 1000 10000 1 = 2000 ∧ nthD
 /-- a reconnect starts the sequence again: disable, integrity, enable pending; nothing else -/
 theorem reset_restarts_startup : ({} : TaskStates) =
     { disable := .pending, integrity := .pending, enable := .pending, clearRestart := .idle, timeSync := .idle, eventScan := .idle } := rfl
+
+-- ===== BEGIN C17 trace theorems (generated by tools/mkwrappers.py from Dnp3/Proofs/MasterC17Trace.lean) =====
+/-! ## Whole-trace theorems (`Master.run`)
+
+Definitions and the inductive invariants are in `Dnp3/Proofs/MasterC17Trace.lean`.
+
+GATING.  `Gated addr outs`: every `deliverBegin (.assoc addr) .unsolicited ..` in `outs` that no
+`taskSuccess addr .startupIntegrity ..` precedes is directly followed by its `deliverEnd` (an empty delivery).
+`Closed addr s`: the integrity poll of `addr` has not completed in `s` (every entry for `addr` has
+`isIntegrityComplete = false`).  `InputOk addr i`: `i` does not add `addr` with `cfg.int = 0`.
+`Inv addr (s', outs)`: `Gated addr outs ∧ (outs contains the integrity success ∨ Closed addr s')`.
+
+ORDERING.  `Which = disInt | intEn` selects the pair (DISABLE_UNSOLICITED before integrity | integrity before
+ENABLE_UNSOLICITED).  `Ordered w addr outs`: every `taskStart addr <later task>` in `outs` is preceded by a completion of
+the earlier task (`Trig`).  `Pend w addr s`: the earlier task is configured and not idle for `addr`; `QOk w addr s`: no
+queued user request is the later task; `OInputOk w addr i`: `i` neither adds `addr` without the earlier task nor
+queues the later (automatic) task as a user request. -/
+
+/-- GATING, trace theorem from the start state: in ANY run of the master from its start state — any inputs: associations
+    added / removed, connects, disconnects, responses with any IIN bits, failures, timeouts, user requests —
+    in which `addr` is only ever configured with an integrity poll (`cfg.int ≠ 0`), every unsolicited delivery for
+    `addr` that is not preceded by a `taskSuccess addr .startupIntegrity` output is EMPTY: its `deliverBegin` is
+    directly followed by its `deliverEnd`, no object header reaches the handler -/
+theorem startup_unsolicited_gated (txSize addr : Nat) (ins : List MInput)
+    (hi : ∀ cfg, MInput.msg (.addAssoc addr cfg) ∈ ins → cfg.int ≠ 0) :
+    ∀ pre o post, (run (start txSize) ins).2.flatten = pre ++ o :: post →
+      (∃ c i1 i2, o = .deliverBegin (.assoc addr) .unsolicited c i1 i2) →
+      (∀ o' ∈ pre, ¬ ∃ fc seq, o' = .taskSuccess addr .startupIntegrity fc seq) →
+      ∃ post', post = .deliverEnd (.assoc addr) .unsolicited :: post' :=
+  @Dnp3.Proofs.MasterC17Trace.startup_unsolicited_gated txSize addr ins hi
+
+/-- GATING, general form: from ANY state in which the integrity poll of `addr` has not completed (initially, after a
+    (re)connect, after a restart indication, after the association was added) and for ANY inputs (that do not
+    configure `addr` without an integrity poll), every unsolicited delivery for `addr` in the whole run that is not
+    preceded by `taskSuccess addr .startupIntegrity` is empty -/
+theorem run_gated (addr : Nat) (s : MState) (ins : List MInput) (hs : Closed addr s) (hi : ∀ i ∈ ins, InputOk addr i) :
+    Gated addr (run s ins).2.flatten :=
+  @Dnp3.Proofs.MasterC17Trace.run_gated addr s ins hs hi
+
+/-- one step from a state with the gate closed -/
+theorem step_gated_inv (addr : Nat) (s : MState) (i : MInput) (hi : InputOk addr i) (h : Closed addr s) : Inv addr (step s i) :=
+  @Dnp3.Proofs.MasterC17Trace.step_gated_inv addr s i hi h
+
+/-- RE-ARM: when the connection is lost during a session the gate of every association with an integrity poll is
+    closed again — so `run_gated` applies to everything that follows, up to the next integrity success -/
+theorem closed_after_eof (addr : Nat) (s : MState) (hcfg : CfgInt addr s)
+    (hon : s.mode ≠ .offline ∧ s.mode ≠ .exited) : Closed addr (step s .eof).1 :=
+  @Dnp3.Proofs.MasterC17Trace.closed_after_eof addr s hcfg hon
+
+
+/-- ORDERING 1, trace theorem from the start state: in ANY run of the master from its start state in which `addr` is only
+    ever configured with DISABLE_UNSOLICITED (`cfg.dis ≠ 0`) and no user request is itself a start-up integrity poll,
+    every `taskStart addr .startupIntegrity` is preceded by the completion of DISABLE_UNSOLICITED for `addr`:
+    its `taskSuccess`, or its `taskFail` with an IIN2 rejection (an outstation that does not support the function;
+    `AutoTask::on_task_error` treats this as the response) -/
+theorem startup_integrity_after_disable (txSize addr : Nat) (ins : List MInput)
+    (hcfg : ∀ cfg, MInput.msg (.addAssoc addr cfg) ∈ ins → cfg.dis ≠ 0)
+    (huser : ∀ t, (MInput.user addr t ∈ ins ∨ MInput.msg (.queueTask addr t) ∈ ins) → ∀ c, t ≠ .read (.integrity c)) :
+    ∀ pre o post, (run (start txSize) ins).2.flatten = pre ++ o :: post →
+      (∃ fc seq, o = .taskStart addr .startupIntegrity fc seq) →
+      ∃ o' ∈ pre, (∃ fc seq, o' = .taskSuccess addr .disableUnsolicited fc seq) ∨
+                  (∃ i1 i2, o' = .taskFail addr .disableUnsolicited (.rejectedIin2 i1 i2)) :=
+  @Dnp3.Proofs.MasterC17Trace.Ord.startup_integrity_after_disable txSize addr ins hcfg huser
+
+/-- ORDERING 2, trace theorem from the start state: in ANY run of the master from its start state in which `addr` is only
+    ever configured with an integrity poll (`cfg.int ≠ 0`) and no user request is itself an automatic
+    ENABLE_UNSOLICITED, every `taskStart addr .enableUnsolicited` is preceded by `taskSuccess addr .startupIntegrity` -/
+theorem startup_enable_after_integrity (txSize addr : Nat) (ins : List MInput)
+    (hcfg : ∀ cfg, MInput.msg (.addAssoc addr cfg) ∈ ins → cfg.int ≠ 0)
+    (huser : ∀ t, (MInput.user addr t ∈ ins ∨ MInput.msg (.queueTask addr t) ∈ ins) → ∀ c, t ≠ .nonRead (.auto .enableUnsol c)) :
+    ∀ pre o post, (run (start txSize) ins).2.flatten = pre ++ o :: post →
+      (∃ fc seq, o = .taskStart addr .enableUnsolicited fc seq) →
+      ∃ o' ∈ pre, ∃ fc seq, o' = .taskSuccess addr .startupIntegrity fc seq :=
+  @Dnp3.Proofs.MasterC17Trace.Ord.startup_enable_after_integrity txSize addr ins hcfg huser
+
+/-- ORDERING, general form: from ANY state in which the earlier task of `addr` is pending, in the whole run every start
+    of the later task is preceded by a completion of the earlier one -/
+theorem run_ordered (w : Which) (addr : Nat) (s : MState) (ins : List MInput) (hq : QOk w addr s) (hs : Pend w addr s)
+    (hi : ∀ i ∈ ins, OInputOk w addr i) : Ordered w addr (run s ins).2.flatten :=
+  @Dnp3.Proofs.MasterC17Trace.Ord.run_ordered w addr s ins hq hs hi
+
+/-- one step from a state in which the earlier task is pending: the outputs are ordered, and the earlier task is still
+    pending afterwards unless its completion was reported -/
+theorem step_ordered_inv (w : Which) (addr : Nat) (s : MState) (i : MInput) (hi : OInputOk w addr i) (hq : QOk w addr s)
+    (h : Pend w addr s) : OInv w addr (step s i) :=
+  @Dnp3.Proofs.MasterC17Trace.Ord.step_ordered_inv w addr s i hi hq h
+
+
+/-- RE-ARM: when the connection is lost during a session the earlier task is pending again, so `run_ordered` applies to
+    everything that follows: after a reconnect the integrity poll again waits for DISABLE_UNSOLICITED, and
+    ENABLE_UNSOLICITED again waits for the integrity poll -/
+theorem pend_after_eof (w : Which) (addr : Nat) (s : MState) (hcfg : CfgOn w addr s)
+    (hon : s.mode ≠ .offline ∧ s.mode ≠ .exited) : QOk w addr (step s .eof).1 ∧ Pend w addr (step s .eof).1 :=
+  @Dnp3.Proofs.MasterC17Trace.Ord.pend_after_eof w addr s hcfg hon
+
+
+/-! concrete instances (the runs `exRun`, `exState` are evaluated in `Dnp3/Proofs/MasterC17Trace.lean`) -/
+
+example : Gated 10 (run (start 2048) exRun).2.flatten := startup_unsolicited_gated 2048 10 exRun exRun_cfg
+
+example : Ordered .disInt 10 (run (start 2048) exRun).2.flatten :=
+  startup_integrity_after_disable 2048 10 exRun
+    (by intro cfg h; simp [exRun, exUnsolData, exUnsolNull, exResp] at h; subst h; decide)
+    (fun t ht => (exRun_noUser t ht).elim)
+
+example : Ordered .intEn 10 (run (start 2048) exRun).2.flatten :=
+  startup_enable_after_integrity 2048 10 exRun exRun_cfg (fun t ht => (exRun_noUser t ht).elim)
+
+/-- after a disconnect in `exState` (integrity done, gate open) everything is re-armed -/
+example : ¬ Closed 10 exState ∧ Closed 10 (step exState .eof).1 ∧ Pend .disInt 10 (step exState .eof).1 ∧
+    Pend .intEn 10 (step exState .eof).1 :=
+  ⟨by unfold Closed; decide +kernel, closed_after_eof 10 exState exState_cfg exState_online,
+   (pend_after_eof .disInt 10 exState (exState_cfgOn _) exState_online).2,
+   (pend_after_eof .intEn 10 exState (exState_cfgOn _) exState_online).2⟩
+
+example (w : Which) : Ordered w 10 (run (step exState .eof).1 [.connect, exUnsolData 6, exResp 3, exUnsolData 7]).2.flatten :=
+  run_ordered w 10 _ _ (pend_after_eof w 10 exState (exState_cfgOn w) exState_online).1
+    (pend_after_eof w 10 exState (exState_cfgOn w) exState_online).2
+    (inputOk_of w 10 _ (by intro cfg h; simp [exUnsolData, exResp] at h)
+      (by intro t h; simp [exUnsolData, exResp] at h))
+
+example : Gated 10 (run (step exState .eof).1 [.connect, exUnsolData 6, exResp 3, exUnsolData 7]).2.flatten :=
+  run_gated 10 _ _ (closed_after_eof 10 exState exState_cfg exState_online)
+    (inputOk_of_cfg 10 _ (by intro cfg h; simp [exUnsolData, exResp] at h))
+
+example : Inv 10 (step (step exState .eof).1 .connect) :=
+  step_gated_inv 10 _ .connect (fun _ => Or.inl (by intro h; cases h)) (closed_after_eof 10 exState exState_cfg exState_online)
+
+example (w : Which) : OInv w 10 (step (step exState .eof).1 .connect) :=
+  step_ordered_inv w 10 _ .connect trivial (pend_after_eof w 10 exState (exState_cfgOn w) exState_online).1
+    (pend_after_eof w 10 exState (exState_cfgOn w) exState_online).2
+
+-- ===== END C17 trace theorems =====
 
 end Dnp3.Props.C17
